@@ -75,10 +75,13 @@ def r_init_security(d):
     cfg.add_section("pygopherd")
     cfg.set("pygopherd", "root", m.get("cfg[pygopherd/root]", "/srv/gopher") or "/srv/gopher")
     cfg.set("pygopherd", "usechroot", "yes" if m.get("cfgbool[pygopherd/usechroot]") else "no")
+    def _cv(key, default):
+        v = m.get("cfg[pygopherd/%s]" % key)
+        return v.replace("%", "%%") if isinstance(v, str) else default
     if m.get("cfghas[pygopherd/setuid]"):
-        cfg.set("pygopherd", "setuid", "someuser")
+        cfg.set("pygopherd", "setuid", _cv("setuid", "someuser"))
     if m.get("cfghas[pygopherd/setgid]"):
-        cfg.set("pygopherd", "setgid", "somegroup")
+        cfg.set("pygopherd", "setgid", _cv("setgid", "somegroup"))
     trace = []
 
     def sys_(name):
